@@ -190,7 +190,7 @@ def go_build_harness(pid, key, log, tags="verif"):
     return rc, out, outbin
 
 
-def go_run_stream(binpath, ops, outp, cwd, log, test="TestVerifStream", timeout=3600, extra_env=None):
+def go_run_stream(binpath, ops, outp, cwd, log, test="TestVerifStream", timeout=900, extra_env=None):
     e = goenv()
     e.update(VERIF_OPS=ops, VERIF_OUT=outp)
     if extra_env:
